@@ -439,35 +439,51 @@ Proof.
   eapply known_classb_sound; eassumption.
 Qed.
 
-(* "… which is also what the next execution presents", full strength for concurrent callers:
-     every EXECUTE presents the id of the metadata most recently announced to the client
-   FALSE for the faithful model: [handle_result_metadata_new_id] compares the metadata of the
-   response — which for a NO_METADATA answer is the caller's own cached snapshot — with the cell
-   and stores it when the ids differ.  Two callers, extension on: call 0 is served while the node
-   still has the old schema (rows without metadata), the schema changes, call 1 is answered with
-   METADATA_CHANGED + new id and stores it, then call 0's answer arrives: its snapshot (old id) is
-   written back over the newer announcement and call 2 presents the OLD id (costs one more
-   METADATA_CHANGED round trip; decoding stays right by C14_faithful). *)
+(* "… which is also what the next execution presents", for concurrent callers, EVERY interleaving
+   and ANY server (after repo 75c6d7e; before it [handle_result_metadata_new_id] could write a
+   caller's cached snapshot back over newer metadata — fixed finding F20):
+   * C14_store_announced: a cell only ever changes by storing metadata that the response being
+     delivered carries together with a metadata id — never a caller's snapshot;
+   * C14_cell_follows_rows: after a Rows answer announcing id i was delivered to an execute on a
+     connection with the extension, the cell holds id i, whatever the other callers did;
+   with C14_next_id (every EXECUTE is built from the cell as it is when it is sent): the next
+   execution presents the id of the announcement that was processed last. *)
+Theorem C14_store_announced : forall ST st l st' s,
+  gstep ST st l = Some st' ->
+  (g_ann st' s = g_ann st s /\ g_cells st' s = g_cells st s) \/
+  exists c r m, l = GL_resp c r /\ carries r m /\ m_id m <> None /\
+                g_ann st' s = m :: g_ann st s /\ g_cells st' s = m.
+Proof. exact store_announced. Qed.
+
+Theorem C14_cell_follows_rows : forall ST st c st' a m b i cols,
+  gstep ST st (GL_resp c (RRows b)) = Some st' ->
+  k_st (g_calls st c) = CS_exec1 a m \/ k_st (g_calls st c) = CS_exec2 a m ->
+  k_ext (g_calls st c) = true -> rb_meta b = RM_full (Some i) cols ->
+  m_id (g_cells st' (xa_stmt a)) = Some i.
+Proof. exact cell_follows_rows. Qed.
+
+(* the history on which the code before 75c6d7e ended with the OLD id in the cell: call 0 is served
+   while the node has the old schema (rows without metadata), the schema changes, call 1 is
+   answered with METADATA_CHANGED + new id, then call 0's answer arrives.  Now nothing is written
+   back and call 2 presents the NEW id. *)
 Definition exHistRace : list slabel :=
   [SL_exec 0 0 (exArgs false); SL_serve 0 payA; SL_event 0 (EV_schema 0 1);
    SL_exec 1 0 (exArgs false); SL_serve 1 payB; SL_recv 1; SL_recv 0; SL_exec 2 0 (exArgs false)].
 
-Theorem C14_next_id_concurrent_refuted :
+Example C14_ex_race_no_writeback :
   match srun exD exST 1 (sinit (exInit true) (exNodes true)) exHistRace with
   | Some st =>
       let g := s_g st in
-      match k_rcvd (g_calls g 0), k_rcvd (g_calls g 1), k_sent (g_calls g 2), g_ann g 0 with
-      | [RRows b0], [RRows b1], [(Q_execute f2, _)], [back; newer] =>
-          (* the only metadata announced after preparation is the new id [7;2] … *)
+      match k_rcvd (g_calls g 0), k_rcvd (g_calls g 1), k_st (g_calls g 0), k_sent (g_calls g 2), g_ann g 0 with
+      | [RRows b0], [RRows b1], CS_done (O_rows u0 _ _ _), [(Q_execute f2, _)], [newer] =>
           match rb_meta b0, rb_meta b1 with
           | RM_none _, RM_full (Some i) _ => bytes_eqb i [7; 2]
           | _, _ => false
           end &&
-          obytes_eqb (m_id newer) (Some [7; 2]) &&
-          (* … but the old one was stored after it, is in the cell, and is what call 2 presents *)
-          obytes_eqb (m_id back) (Some [7; 1]) && obytes_eqb (m_id (g_cells g 0)) (Some [7; 1]) &&
-          obytes_eqb (f_rmid f2) (Some [7; 1])
-      | _, _, _, _ => false
+          cols_eqb (m_cols u0) cA &&                                   (* call 0 decoded with its snapshot *)
+          obytes_eqb (m_id newer) (Some [7; 2]) && obytes_eqb (m_id (g_cells g 0)) (Some [7; 2]) &&
+          obytes_eqb (f_rmid f2) (Some [7; 2])
+      | _, _, _, _, _ => false
       end
   | None => false
   end = true.
@@ -617,17 +633,21 @@ Example C14_ex_stale_check :
     [TO_exec 0 true (exArgs false) [exX (Q_execute exF1) exRowsA cA] exObsA] = [(0%nat, None)].
 Proof. vm_compute. repeat split; reflexivity. Qed.
 
-(* the interleaving search finds the schedule of the race history that leaves the OLD id in the cell,
-   and rejects a wrong outcome *)
+(* the interleaving search accepts the two concurrent calls of the race history (cell = NEW id), finds no
+   interleaving that leaves the old id, and rejects a wrong outcome *)
 Example C14_ex_par :
   let x0 := exX (Q_execute exF1) exRowsA cA in
   let x1 := exX (Q_execute exF1) (RRows (mkRows (RM_full (Some [7;2]) cB) None 1 (p_cells payB))) cB in
   let oB := OB_rows cB None (Some [[Some [0;0;0;2]; Some [104]; Some [0;0;0;0;0;0;0;3]]]) true in
   let p0 := mkP 0 true (exArgs false) false [x0] exObsA in
   let p1 (o : obs_out) := mkP 1 true (exArgs false) false [x1] o in
-  match g_par 40 exST (fun g => obytes_eqb (m_id (g_cells g 0)) (Some [7;1])) (ginit (exInit true)) [] [p0; p1 oB] with
+  match g_par 40 exST (fun g => obytes_eqb (m_id (g_cells g 0)) (Some [7;2])) (ginit (exInit true)) [] [p0; p1 oB] with
   | Some st => true
   | None => false
+  end &&
+  match g_par 40 exST (fun g => obytes_eqb (m_id (g_cells g 0)) (Some [7;1])) (ginit (exInit true)) [] [p0; p1 oB] with
+  | Some _ => false     (* no interleaving leaves the old id in the cell any more *)
+  | None => true
   end &&
   match g_par 40 exST (fun _ => true) (ginit (exInit true)) [] [p0; p1 exObsA] with
   | Some _ => false
@@ -656,4 +676,5 @@ Print Assumptions C14_known_classb_sound.
 Print Assumptions C14_quadrant_dec.
 Print Assumptions C14_call_log.
 Print Assumptions C14_par_sound.
-Print Assumptions C14_next_id_concurrent_refuted.
+Print Assumptions C14_store_announced.
+Print Assumptions C14_cell_follows_rows.
